@@ -261,6 +261,7 @@ type c15Case struct {
 	mode  string // live | dead | test
 	ops   []string
 	srv   string // test mode: "" = server inside the harness process, "proc" = server in a separate process
+	stub  bool   // live mode: the plugin acknowledges the shutdown request and keeps running (Kill has to force it)
 }
 
 func (c *c15Case) line() string {
@@ -268,6 +269,9 @@ func (c *c15Case) line() string {
 	l := fmt.Sprintf("C15 launch=%s hs=1 ops=%s proto=%s", launch, strings.Join(c.ops, ","), c.proto)
 	if c.srv != "" {
 		l += " srv=" + c.srv
+	}
+	if c.stub {
+		l += " stub=1"
 	}
 	return l
 }
@@ -356,7 +360,8 @@ func runC15(c *c15Case, idx int) (impl, pred string) {
 	case "live", "dead":
 		launcher = plugin.NewClient(&plugin.ClientConfig{
 			HandshakeConfig: kitHandshake(), VersionedPlugins: hostSets, AllowedProtocols: allowed,
-			Cmd:    kitCmd(kitServeCfg{Sets: map[string]string{"3": c.proto}, GRPCServer: c.proto == "grpc"}, "TMPDIR="+base),
+			Cmd: kitCmd(kitServeCfg{Sets: map[string]string{"3": c.proto}, GRPCServer: c.proto == "grpc",
+				AfterServe: map[bool]string{true: "hang", false: ""}[c.stub]}, "TMPDIR="+base),
 			Logger: nullLogger(), StartTimeout: 5 * time.Second,
 		})
 		cp, err := launcher.Client()
@@ -626,7 +631,7 @@ func init() {
 		if replay != "" {
 			_, m := kvLine(replay)
 			mode := map[string]string{"reattach": "live", "reattach-dead": "dead", "reattach-test": "test"}[m["launch"]]
-			c := &c15Case{proto: m["proto"], mode: mode, ops: splitComma(m["ops"]), srv: m["srv"]}
+			c := &c15Case{proto: m["proto"], mode: mode, ops: splitComma(m["ops"]), srv: m["srv"], stub: m["stub"] == "1"}
 			impl, pred := runC15(c, 0)
 			o.emit(c.line(), impl, pred)
 			return
@@ -649,6 +654,11 @@ func init() {
 					cases = append(cases, &c15Case{proto: proto, mode: "dead", ops: ops})
 				}
 			}
+		}
+		// a plugin that ignores the shutdown request: Kill on the reattached client has to terminate it by force
+		for _, proto := range []string{"netrpc", "grpc"} {
+			cases = append(cases, &c15Case{proto: proto, mode: "live", stub: true, ops: []string{"S", "K"}},
+				&c15Case{proto: proto, mode: "live", stub: true, ops: []string{"C", "K"}})
 		}
 		// reattaching several times, from a reattached client's ReattachConfig(): live plugins and test-mode server processes
 		chains := c15ChainCases()
